@@ -10,6 +10,9 @@ package main
 import (
 	"context"
 	"fmt"
+	"os"
+	"os/exec"
+	"path/filepath"
 	"runtime"
 	"strings"
 	"time"
@@ -169,6 +172,56 @@ func c09Site(l slog.Logger, withErr bool) (file string, line int) {
 	return
 }
 
+func init() {
+	// c09wd <earlier:0|1> <dir>: a fresh production process; optionally one record first, then a change of the working
+	// directory, then the record in question (explicit time and call site, privacy flags off, caller on): its bytes
+	childModes["c09wd"] = func(a []string) {
+		rec := &recorder{}
+		slog.SetFlags((slog.LstdFlags | slog.Lcaller | slog.LnoInterrupt) &^ (slog.Lprivacypath | slog.Lprivacypathregexp))
+		l := slog.New("c09wd").SetWriter(rec).SetErrorWriter(rec).SetLevel(slog.InfoLevel).SetColorMode(false)
+		pc := c09PC()
+		ts := time.Date(2024, 2, 29, 12, 30, 45, 0, time.UTC)
+		if a[0] == "1" {
+			l.WriteThru(context.Background(), slog.InfoLevel, ts, pc, "starting", nil)
+			rec.take()
+		}
+		must(os.Chdir(a[1]))
+		l.WriteThru(context.Background(), slog.InfoLevel, ts, pc, "ready", nil)
+		for _, w := range rec.take() {
+			fmt.Println("PAYLOAD " + hx(w))
+		}
+	}
+}
+
+// c09WorkingDir: the bytes of a record are those of its call in the state of the moment (the working directory of the
+// moment included), whether or not the process formatted another record before it changed directory.
+func c09WorkingDir(r *run) {
+	exe := os.Getenv("VERIF_HARNESS")
+	if exe == "" {
+		return
+	}
+	wd, _ := os.Getwd()
+	for _, dir := range []string{filepath.Dir(wd), filepath.Join(wd, "harness"), os.TempDir()} {
+		var outs []string
+		for _, earlier := range []string{"0", "1"} {
+			out, _ := exec.Command(exe, "c09wd", earlier, dir).CombinedOutput()
+			p := ""
+			for _, line := range strings.Split(string(out), "\n") {
+				if strings.HasPrefix(line, "PAYLOAD ") {
+					p = line[8:]
+				}
+			}
+			outs = append(outs, p)
+		}
+		r.seen("working-directory|" + dir)
+		if outs[0] == "" || outs[0] != outs[1] {
+			r.violate(violation{What: "the same call produced different bytes depending on whether the process had formatted a record before it changed its working directory",
+				Input:    map[string]any{"new_working_directory": dir, "call": "WriteThru(Info, fixed time, fixed call site, \"ready\") with the caller flag on and the privacy flags off"},
+				Expected: outs[0], Actual: outs[1]})
+		}
+	}
+}
+
 func runC09(r *run) {
 	g := &rng{s: r.seed*236887699 + 9}
 	r.rule = "probe calls replayed after 4 different histories each (empty history, random other records in all formats, registrations, restored flag scopes, seeded pool contexts); distinct = distinct (probe format, severity class, has group/error/multi-line, history shape); non-trivial = probes preceded by a non-empty history"
@@ -206,8 +259,12 @@ func runC09(r *run) {
 			lvl = 100 + i // a number no earlier group has used: the first history sees it fresh
 			base.lvl = lvl
 		}
+		if i%6 == 1 {
+			// a long list with repeated keys, built once and passed every time: every rendering shows the same values
+			base.attrs = append(base.attrs, g.genWideAttrs(false)...)
+		}
 		// the application builds the probe's attributes once and passes the same value every time
-		if len(base.attrs) > 0 && g.chance(1, 2) {
+		if len(base.attrs) > 0 && (g.chance(1, 2) || i%6 == 1) {
 			base.built = toAttrs(base.attrs)
 		}
 		var outputs []string
@@ -272,6 +329,26 @@ func runC09(r *run) {
 			outputs = append(outputs, string(c.payload))
 			hdescs = append(hdescs, hd)
 		}
+		if base.built != nil {
+			// … and the same as a call that is given a freshly built list of the same attributes
+			slog.VerifResetGlobals()
+			r.emit("C17 reset", "ok")
+			if registerLate {
+				title := fmt.Sprintf("NOTICE-%d", lvl)
+				if fgOnly {
+					_ = slog.RegisterLevel(slog.Level(lvl), title, slog.RegWithColor(color.Color(fgColor)))
+					r.emit(fmt.Sprintf("C17 reg %d %s x x x x x x %d -1 12 0", lvl, hxs(title), fgColor), "ok")
+				} else {
+					_ = slog.RegisterLevel(slog.Level(lvl), title)
+					r.emit(fmt.Sprintf("C17 reg %d %s x x x x x x -1 -1 12 0", lvl, hxs(title)), "ok")
+				}
+			}
+			c := *base
+			c.built = toAttrs(base.attrs)
+			encRun(r, "C09", &c)
+			outputs = append(outputs, string(c.payload))
+			hdescs = append(hdescs, "a freshly built list of the same attributes instead of the kept one")
+		}
 		hasGroup, hasErr := false, false
 		for _, a := range base.attrs {
 			hasGroup = hasGroup || a.val.kind == "group"
@@ -293,6 +370,7 @@ func runC09(r *run) {
 		}
 	}
 	c09Chains(r, g)
+	c09WorkingDir(r)
 	// caller attribution of one call site must not depend on what the previous record from that site carried
 	slog.VerifResetGlobals()
 	slog.SetFlags(slog.LstdFlags | slog.Lcaller)
